@@ -173,6 +173,8 @@ const (
 	c19AcsA  = "https://sp-a.example.com/acs"
 	c19AcsA2 = "https://sp-a.example.com/acs-moved"
 	c19AcsB  = "https://sp-b.example.com/acs"
+	c19EntAc = "https://SP-A.example.com/metadata" // another service provider: its entity ID differs from A's in letter case only
+	c19AcsAc = "https://sp-a.example.com/acs-of-the-other-case"
 )
 
 func c19Metadata(which string) []byte {
@@ -182,6 +184,8 @@ func c19Metadata(which string) []byte {
 		acs = c19AcsA2
 	case "B":
 		ent, acs = c19EntB, c19AcsB
+	case "Ac":
+		ent, acs = c19EntAc, c19AcsAc
 	}
 	if which == "N" { // a registered SP without any HTTP-POST assertion consumer service (artifact only): legal metadata, nothing can be posted to it
 		ed := saml.EntityDescriptor{EntityID: c19EntN, SPSSODescriptors: []saml.SPSSODescriptor{{SSODescriptor: saml.SSODescriptor{RoleDescriptor: saml.RoleDescriptor{ProtocolSupportEnumeration: "urn:oasis:names:tc:SAML:2.0:protocol"}},
@@ -201,6 +205,9 @@ func c19Metadata(which string) []byte {
 	b, _ := xml.Marshal(ed)
 	return b
 }
+
+// c19EmptyPw is the model's value for "the stored hash is that of the empty string" ("" stands for "no hash stored").
+const c19EmptyPw = "\x00"
 
 type c19MSession struct {
 	owner   string
@@ -250,6 +257,8 @@ func (m *c19Model) registry() map[string]string {
 			r[c19EntA] = c19AcsA2
 		case "B":
 			r[c19EntB] = c19AcsB
+		case "Ac":
+			r[c19EntAc] = c19AcsAc
 		case "N":
 			r[c19EntN] = c19ArtN // registered, but there is no endpoint a response could be posted to
 		}
@@ -321,7 +330,7 @@ func cheapen(st *c19Store, m *c19Model) {
 			continue
 		}
 		if c, err := bcrypt.Cost(su.HashedPassword); err == nil && c > bcrypt.MinCost {
-			su.HashedPassword = minHash(u.pw)
+			su.HashedPassword = minHash(strings.TrimPrefix(u.pw, c19EmptyPw))
 			b, _ := json.Marshal(su)
 			st.data[k] = string(b)
 		}
@@ -385,6 +394,18 @@ func c19Actions() []c19Action {
 			}}
 	}
 	acts = append(acts, putUser("alice", "p2", "alice@new.example.com", true), putUser("alice", "", "alice@changed.example.com", false), putUser("bob", "", "bob@example.com", false))
+	// a body whose password member is present and empty: the empty string becomes the password (model value c19EmptyPw); what was the
+	// password before no longer is
+	acts = append(acts, c19Action{name: `PUT user alice with "password":"" present`, heavy: true, req: func(*c19Model) c19Req {
+		return c19Req{method: "PUT", path: "/users/alice", body: `{"name":"alice","email":"alice@example.com","password":""}`}
+	}, apply: func(m *c19Model, rep *c19Reply) (bool, string, string, string) {
+		if rep.code < 300 {
+			u := m.users["alice"]
+			u.pw, u.email = c19EmptyPw, "alice@example.com"
+			m.users["alice"] = u
+		}
+		return false, "", "", ""
+	}})
 	// a profile update whose body names another user: the path decides whose record it is
 	acts = append(acts, c19Action{name: "PUT user bob with body name=alice, no password", req: func(*c19Model) c19Req {
 		b, _ := json.Marshal(map[string]interface{}{"name": "alice", "email": "bob@renamed.example.com"})
@@ -404,7 +425,7 @@ func c19Actions() []c19Action {
 			}
 			return false, "", "", ""
 		}})
-	for _, sv := range []struct{ name, md string }{{"s1", "A"}, {"s1", "A2"}, {"s1", "B"}, {"s2", "B"}, {"s2", "N"}} {
+	for _, sv := range []struct{ name, md string }{{"s1", "A"}, {"s1", "A2"}, {"s1", "B"}, {"s2", "B"}, {"s2", "N"}, {"s2", "Ac"}} {
 		sv := sv
 		acts = append(acts, c19Action{name: fmt.Sprintf("PUT service %s=%s", sv.name, sv.md), req: func(*c19Model) c19Req {
 			return c19Req{method: "PUT", path: "/services/" + sv.name, body: string(c19Metadata(sv.md))}
@@ -447,7 +468,7 @@ func c19Actions() []c19Action {
 
 	credsOK := func(m *c19Model, user, pw string) bool {
 		u, ok := m.users[user]
-		return ok && u.pw != "" && u.pw == pw
+		return ok && u.pw != "" && (u.pw == pw || u.pw == c19EmptyPw && pw == "")
 	}
 	login := func(m *c19Model, rep *c19Reply, user string) {
 		if rep.setSess != "" {
@@ -683,7 +704,7 @@ func c19Initials() []*c19State {
 
 func observeRegistry(srv *samlidp.Server) string {
 	var parts []string
-	for _, e := range []string{c19EntA, c19EntB, c19EntZ, c19EntN} {
+	for _, e := range []string{c19EntA, c19EntB, c19EntZ, c19EntN, c19EntAc} {
 		md, err := srv.GetServiceProvider(nil, e)
 		if err != nil || md == nil {
 			parts = append(parts, "-")
@@ -807,7 +828,7 @@ func c19Step(s *c19State, a c19Action, faults bool, depth int) (*c19State, []str
 		viols = append(viols, fmt.Sprintf("restart-differential/registry|after the request the running server knows [%s] but a server re-created over the same store knows [%s]\n%s", live, fr, ctx))
 	}
 	var mreg []string
-	for _, e := range []string{c19EntA, c19EntB, c19EntZ, c19EntN} {
+	for _, e := range []string{c19EntA, c19EntB, c19EntZ, c19EntN, c19EntAc} {
 		if acs, ok := ns.m.registry()[e]; ok {
 			mreg = append(mreg, e+"@"+acs)
 		} else {
